@@ -253,7 +253,11 @@ class PropertyDescriptor(Symbol):
             # Copy before clearing: the value may be the container itself (x.f = x.f, x.f += [...], x.f |= {...}).
             # The elements are kept in the given order and with their repetitions.
             values = list(value) if is_iterable(value) else [value]
-            attr._clear()
+            if attr._created_before_first_assignment:
+                # This is the assignment of the constructor, it must not discard what was inferred before it.
+                attr._created_before_first_assignment = False
+            else:
+                attr._clear()
             for v in values:
                 attr._add_item(v, inferred=False)
         else:
@@ -270,6 +274,8 @@ class PropertyDescriptor(Symbol):
         :param domain_value: The domain value to update (i.e., the instance that this descriptor is attached to).
         :param range_value: The range value to update (i.e., the value to set on the managed attribute).
         """
+        if not hasattr(domain_value, self.private_attr_name):
+            self._initialize_field_of_instance_under_construction(domain_value)
         v = getattr(domain_value, self.private_attr_name)
         updated = False
         if isinstance(v, MonitoredContainer):
@@ -278,6 +284,23 @@ class PropertyDescriptor(Symbol):
             setattr(domain_value, self.private_attr_name, range_value)
             updated = True
         return updated
+
+    def _initialize_field_of_instance_under_construction(self, obj: Symbol) -> None:
+        """
+        An inference can reach a field that the constructor of its instance has not assigned yet: the field of a
+        super property that is declared after the field that is being written. The field starts empty, and the
+        assignment of the constructor that follows keeps what was inferred until then.
+
+        :param obj: The instance that is being constructed.
+        """
+        value = None
+        if self.is_iterable:
+            value = monitored_type_map[self.wrapped_field.container_type](
+                descriptor=self
+            )
+            value._bind_owner(obj)
+            value._created_before_first_assignment = True
+        setattr(obj, self.private_attr_name, value)
 
     @classmethod
     @lru_cache(maxsize=None)
